@@ -47,6 +47,11 @@ func genMulti(c *Case, r *simrt.Rand, tier string) {
 		maxB, maxS = 12, 30
 	}
 	kids := r.Chance(0.5) && c.Opts.Backing != "mapll" && (kidsEverywhere || c.Opts.Backing == "mem")
+	// Merge operations of an order-sensitive operator on a per-writer
+	// accumulator key (top level and in the writer's child collection): the
+	// folded value spells out the prefix of batches it stems from, so a torn,
+	// doubled or reordered operand shows in the atomicity clause
+	useMerge := r.Chance(0.35)
 	for w := 0; w < nW; w++ {
 		var prog []Op
 		nb := 2 + r.Intn(maxB)
@@ -63,8 +68,22 @@ func genMulti(c *Case, r *simrt.Rand, tier string) {
 					b.Ops = append(b.Ops, KV{Op: "del", K: key})
 				}
 			}
+			if useMerge {
+				acc := []byte(writerPrefix(w) + "acc")
+				switch x := r.Intn(10); {
+				case x < 6:
+					b.Ops = append(b.Ops, KV{Op: "merge", K: acc, V: stamp})
+				case x < 7:
+					b.Ops = append(b.Ops, KV{Op: "set", K: acc, V: stamp})
+				case x < 8:
+					b.Ops = append(b.Ops, KV{Op: "del", K: acc})
+				}
+			}
 			if kids && r.Chance(0.7) {
 				cb := &BatchSpec{}
+				if useMerge && r.Chance(0.5) {
+					cb.Ops = append(cb.Ops, KV{Op: "merge", K: []byte("acc"), V: stamp})
+				}
 				for k := 0; k < 3; k++ {
 					key := []byte(fmt.Sprintf("q%d", k))
 					switch x := r.Intn(10); {
@@ -166,7 +185,7 @@ func genMulti(c *Case, r *simrt.Rand, tier string) {
 	}
 	c.Flags["nWriters"] = false
 	c.VerifyAtomic = false
-	c.Opts.MergeOp = false
+	c.Opts.MergeOp = useMerge
 	// the number of writers is recoverable from the programs (writers issue batches)
 	if c.Prop == "C16" || (c.Prop == "C17" && r.Chance(0.3)) {
 		// a closer: Close at an arbitrary point, then the post-Close contract
